@@ -66,6 +66,7 @@ type hcExchange struct {
 	RShort   int         `json:"rshort"` // >0: declare RBodyLen, send RShort bytes fewer, then close
 	RReset   bool        `json:"rreset"` // reset the backend connection in the middle of the body
 	RInc     bool        `json:"rincompressible"`
+	ReqShort  int        `json:"req_short"`  // C07: the client sends this many bytes fewer than its framing promises (declared length, or the chunk stream incl. its terminator), then half-closes
 	FailFirst int        `json:"fail_first"` // the first n attempts are answered 502 (a failure code) by the backend
 }
 
@@ -856,6 +857,18 @@ func (c *hcChain) hcDo(cc **hcConn, ci int, id string, ex *hcExchange) *hcResp {
 			if _, err := conn.c.Write(head); err != nil {
 				return
 			}
+			if ex.ReqShort > 0 {
+				cut := len(body) - ex.ReqShort
+				if cut < 0 {
+					cut = 0
+				}
+				c.r.Fault("client.request_body_shorter_than_framed")
+				conn.c.Write(body[:cut])
+				if hc, ok := conn.c.(interface{ CloseWrite() error }); ok {
+					hc.CloseWrite()
+				}
+				return
+			}
 			conn.c.Write(body)
 		}()
 		// far beyond every time-out inside the system and beyond the total
@@ -870,7 +883,7 @@ func (c *hcChain) hcDo(cc **hcConn, ci int, id string, ex *hcExchange) *hcResp {
 			finished = true
 		default:
 		}
-		if !finished || !res.complete || res.connClose || res.frameErr != "" || res.ioErr != nil {
+		if !finished || !res.complete || res.connClose || res.frameErr != "" || res.ioErr != nil || ex.ReqShort > 0 {
 			conn.c.Close()
 			<-done
 			*cc = nil
